@@ -210,46 +210,42 @@ class Worker:
         return json.loads(line), None
 
 
-def run_real(ctx, jobs):
+def run_real(state, jobs):
     """run every job in the worker; -> list (per job) of lists (per op) of result dicts.
     A batch that does not come back (or kills the worker) is re-run one operation at a time to name the
     operation; after MAX_BAD hangs/crashes of one kind of operation the remaining ones of that kind are
     skipped (`{"skipped": True}`), so that a kernel that loops costs a bounded amount of time."""
-    w = Worker(ctx.native)
+    w = state["worker"]
+    bad_kinds = state["bad"]
     results = []
-    bad_kinds = {}
 
     def dropped(op):
         return bad_kinds.get(op[0], 0) >= MAX_BAD
-    try:
-        B = 400
-        for i in range(0, len(jobs), B):
-            chunk = jobs[i:i + B]
-            if bad_kinds:
-                send = [{"g": j["g"], "ops": [op for op in j["ops"] if not dropped(op)]} for j in chunk]
-            else:
-                send = chunk
-            res, bad = w.call(send, BATCH_TIMEOUT)
-            if res is not None:
-                for job, rj in zip(chunk, res):
-                    it = iter(rj)
-                    results.append([{"skipped": True} if dropped(op) else next(it) for op in job["ops"]])
-                continue
-            # isolate: one op at a time
-            for job in chunk:
-                rj = []
-                for op in job["ops"]:
-                    if dropped(op):
-                        rj.append({"skipped": True})
-                        continue
-                    r, bad1 = w.call([{"g": job["g"], "ops": [op]}], OP_TIMEOUT)
-                    if r is None:
-                        bad_kinds[op[0]] = bad_kinds.get(op[0], 0) + 1
-                    rj.append(r[0][0] if r is not None else {bad1: True})
-                results.append(rj)
-    finally:
-        w.stop()
-    ctx.extra["ops_not_returning"] = dict(bad_kinds)
+    B = 400
+    for i in range(0, len(jobs), B):
+        chunk = jobs[i:i + B]
+        if bad_kinds:
+            send = [{"g": j["g"], "ops": [op for op in j["ops"] if not dropped(op)]} for j in chunk]
+        else:
+            send = chunk
+        res, bad = w.call(send, BATCH_TIMEOUT)
+        if res is not None:
+            for job, rj in zip(chunk, res):
+                it = iter(rj)
+                results.append([{"skipped": True} if dropped(op) else next(it) for op in job["ops"]])
+            continue
+        # isolate: one op at a time
+        for job in chunk:
+            rj = []
+            for op in job["ops"]:
+                if dropped(op):
+                    rj.append({"skipped": True})
+                    continue
+                r, bad1 = w.call([{"g": job["g"], "ops": [op]}], OP_TIMEOUT)
+                if r is None:
+                    bad_kinds[op[0]] = bad_kinds.get(op[0], 0) + 1
+                rj.append(r[0][0] if r is not None else {bad1: True})
+            results.append(rj)
     return results
 
 
@@ -423,12 +419,16 @@ def gen_inlets(rng, g, outlet, mode):
 
 
 class Cases:
-    """jobs grouped by grid: {"g": [nrows, ncols, fd], "ops": [...]} ; tags parallel to ops"""
+    """jobs grouped by grid: {"g": [nrows, ncols, fd], "ops": [...]} ; tags parallel to ops.
+    Processed block by block (`sink`) so that memory stays bounded whatever the tier."""
+    LIMIT = 12000
 
-    def __init__(self):
-        self.jobs, self.tags = [], []
+    def __init__(self, sink=None):
+        self.jobs, self.tags, self.sink = [], [], sink
 
     def grid(self, nrows, ncols, fd):
+        if self.sink is not None and len(self.jobs) >= self.LIMIT:
+            self.flush()
         self.jobs.append({"g": [nrows, ncols, list(fd)], "ops": []})
         self.tags.append([])
         return len(self.jobs) - 1
@@ -436,6 +436,12 @@ class Cases:
     def op(self, j, op, tag):
         self.jobs[j]["ops"].append(op)
         self.tags[j].append(tag)
+
+    def flush(self):
+        if self.jobs and self.sink is not None:
+            jobs, tags = self.jobs, self.tags
+            self.jobs, self.tags = [], []
+            self.sink(jobs, tags)
 
 
 def add_grid_cases(cs, rng, nrows, ncols, fd, tag, api, full, py_share=0.0, outlets=None, inlet_modes=None, river_geom=None):
@@ -636,23 +642,45 @@ def case_of(job, op):
 
 
 def body(ctx):
-    rng = ctx.rng
-    cs = Cases()
-    # ---- replay / corpus first
-    prior = []
-    if getattr(ctx, "replay", None) and isinstance(ctx.replay.get("case"), dict) and "fd" in ctx.replay["case"]:
-        prior.append(ctx.replay["case"])
-    cdir = C.ROOT / "corpus" / PID
-    if cdir.is_dir():
-        for f in sorted(cdir.glob("*.json")):
-            prior.append(json.loads(f.read_text()))
-    for case in prior:
-        j = cs.grid(case["nrows"], case["ncols"], case["fd"])
-        cs.op(j, case["op"], "corpus")
-    gen_cases(ctx, cs)
+    state = {"worker": Worker(ctx.native), "bad": {}, "etab": error_table(C.REPO), "grids": 0}
+    cs = Cases(sink=lambda jobs, tags: process_block(ctx, state, jobs, tags))
+    try:
+        # ---- replay / corpus first
+        prior = []
+        if getattr(ctx, "replay", None) and isinstance(ctx.replay.get("case"), dict) and "fd" in ctx.replay["case"]:
+            prior.append(ctx.replay["case"])
+        cdir = C.ROOT / "corpus" / PID
+        if cdir.is_dir():
+            for f in sorted(cdir.glob("*.json")):
+                prior.append(json.loads(f.read_text()))
+        for case in prior:
+            j = cs.grid(case["nrows"], case["ncols"], case["fd"])
+            cs.op(j, case["op"], "corpus")
+        gen_cases(ctx, cs)
+        cs.flush()
+    finally:
+        state["worker"].stop()
+    ctx.extra["rule"] = __doc__.split("Cases:")[1].strip()
+    ctx.extra["grids"] = state["grids"]
+    ctx.extra["ops_not_returning"] = dict(state["bad"])
+    ctx.extra["error_table"] = {str(k): v for k, v in state["etab"].items()}
+    ctx.assumptions += [
+        "scipy.ndimage.binary_fill_holes is a parameter of the model (theorem: any fill that keeps the mask contains the area)",
+        "theorems are exact (Int / commutative ring with sqrt 1 = 1, sqrt 0 = 0, instantiated at the reals); IEEE rounding of "
+        "the accumulated lengths is covered by the Float correspondence (within 4 ulp, in practice bit-equal)",
+        "flow-direction arrays are int64 and C-contiguous, as Catchment.__init__ / the Cython wrappers enforce",
+        "the flow-path theorem is about start cells whose chain first meets the outlet in fewer steps than cells were handed "
+        "to the kernel — proved to hold for every cell of a delineated area (flowpath_on_area) — or leaves the grid before; "
+        "for other lists of cells the kernel's bounded result is only modelled (correspondence), not characterised",
+    ]
 
-    results = run_real(ctx, cs.jobs)
-    etab = error_table(C.REPO)
+
+def process_block(ctx, state, jobs, tags):
+    """real code (worker) -> model (driver) -> comparison -> oracle, for one block of jobs"""
+    cs_jobs, cs_tags = jobs, tags
+    state["grids"] += len(jobs)
+    results = run_real(state, jobs)
+    etab = state["etab"]
     fdtok = {}
     reqs, meta = [], []            # model requests and what to do with the reply
 
@@ -666,7 +694,7 @@ def body(ctx):
         return etab.get(r["err"], "err") if "err" in r else None
 
     graphs = {}
-    for job, tags, res in zip(cs.jobs, cs.tags, results):
+    for job, tags, res in zip(cs_jobs, cs_tags, results):
         nrows, ncols, fd = job["g"]
         n = nrows * ncols
         g = graphs.get(id(job))
@@ -784,18 +812,6 @@ def body(ctx):
     for (case, r), rep in zip(meta2, replies2):
         ctx.compare("C06 filled", case, C.ilist(sorted(r["filled"])), C.ilist(sorted(int(t) for t in C.parse_list(rep))))
         oracle_filled(ctx, case, r)
-
-    ctx.extra["rule"] = __doc__.split("Cases:")[1].strip()
-    ctx.extra["grids"] = len(cs.jobs)
-    ctx.extra["error_table"] = {str(k): v for k, v in etab.items()}
-    ctx.assumptions += [
-        "scipy.ndimage.binary_fill_holes is a parameter of the model (theorem: any fill that keeps the mask contains the area)",
-        "theorems are exact (Int / ordered field with sqrt 1 = 1, sqrt 0 = 0); IEEE rounding of the accumulated lengths is "
-        "covered by the Float correspondence (within 4 ulp, in practice bit-equal)",
-        "flow-direction arrays are int64 and C-contiguous, as Catchment.__init__ / the Cython wrappers enforce",
-        "the flow-path theorem is about start cells whose chain reaches the outlet in fewer than len(idxcells_area) steps, "
-        "which holds for every cell of a delineated area; for other lists the kernel's bounded result is only modelled",
-    ]
 
 
 # =============================================================================================
